@@ -312,6 +312,9 @@ Section Cat.
         | FNested _ => ts <- mapM as_nested l ;; option_map FNested (mnt_cat ts dim)
         | FDict d0 =>
             ds <- mapM as_dict l ;;
+            (* every dict must have the key set of the first: td_dict.keys() != td.keys() raises *)
+            if negb (forallb (fun d => keys_eqb String.eqb (map fst d) (map fst d0)) ds) then None
+            else
             (* for name in td.keys(): cat([td_dict[name] for td_dict in td_list]) *)
             option_map FDict
               (mapM (fun kv =>
